@@ -13,7 +13,7 @@ THEOREMS = ["advertises_everything_held", "advert_reaches_every_candidate", "act
             "fetches_only_unheld", "immutable_replicates_identically", "fetched_record_is_holders_or_merge",
             "mutable_converges_if_fetched", "scratchpad_highest_counter_wins", "sync_replicates_missing",
             "periodic_replication_converges_outside_known", "periodic_replication_converges_refuted",
-            "range_sync_is_assignment", "range_history_last_wins", "in_range_advert_is_fetched",
+            "replication_targets_are_peers_within_range", "range_sync_is_assignment", "range_history_last_wins", "in_range_advert_is_fetched",
             "out_of_range_not_fetched",
             "delivery_order_irrelevant_for_missing", "on_replicate_without_range",
             "on_replicate_matches_fetcher_model"]
@@ -29,15 +29,19 @@ RULE = ("scenarios over 2-3 real nodes: (a) every node seeded with records of al
         "again with or without a further put (the un-synced lag), and lists with 0, 1, 2 or more new keys "
         "within / between / beyond the ranges arrive (families regrow, regrow-lag, zigzag, boundary); "
         "(f) routing tables of more than K_VALUE peers with lists from the holder at an exact distance rank "
-        "(K-2, K-1, K, K+1, ...). A case is distinct/non-trivial by (family, number of nodes, number of "
+        "(K-2, K-1, K, K+1, ...); (g) an advertiser whose range is exactly on / one off the distance of its r-th "
+        "nearest routing-table peer (r around CLOSE_GROUP_SIZE+1, family edge); (h) two versions of a mutable "
+        "record handed to / fetched by a node that did not hold it while the store's AddLocalRecordAsStored "
+        "follow-up is held back, both orders (family window). A case is distinct/non-trivial by (family, number of nodes, number of "
         "effective steps, set of message kinds delivered, whether a fetch stored something, whether stores "
         "ended equal)")
 ASSUMPTIONS = [
-    "replicate-candidate lists are taken from the real node as data (their computation is C11); the closest-K set is NOT: the model and the oracle compute it from the routing-table peers and SHA-256-XOR distances the harness computes itself, K_VALUE re-read from the libp2p-kad source",
+    "the closest-K set and the replication targets are NOT taken from the node: the model and the oracle compute them from the routing-table peers and SHA-256-XOR distances the harness computes itself, K_VALUE re-read from the libp2p-kad source",
     "distances between nodes and keys / peers are computed by the harness (SHA-256 of the key / PeerId bytes, XOR, big-endian) independently of the repository's own conversion and handed to the model as a table",
     "the fetcher's range itself is not observable through a hook: the oracle judges from the ranges the TEST set and the points where a PutLocalRecord command was handled (where the driver copies the store's range into the fetcher); the density tick that also copies it is not reachable from the harness",
     "the fetcher is modelled only inside the envelope of the bridge theorem on_replicate_matches_fetcher_model (idle queue, cap not reached, no advertised unheld entry already in flight next to another unheld one) and without timeouts; the agreement stops comparing a run at the step that leaves the envelope (the oracle still judges it); full transcription and theorems: C08",
     "record validity (signatures, content address) is a flag computed by the generator from how the record was built (C04/C06/C07 verify the validators)",
+    "the record store's index-vs-cache window (between PutLocalRecord and AddLocalRecordAsStored) is not in the Coq model: the lock-step comparison ends at the first hold_local op of a case, the oracle judges the rest from what the store serves",
     "libp2p transport is replaced by the harness; message loss/reordering is explicit in the case"]
 
 
@@ -138,7 +142,7 @@ def msg_term(m, names):
 def held_term(state, names):
     out = []
     for i, n in enumerate(state):
-        items = clist(["(%s, %s)" % (cN(names.kid(h["key"])), content_term(canon(h["content"], names))) for h in n["held"]])
+        items = clist(["(%s, %s)" % (cN(names.kid(h["key"])), content_term(canon(h["content"], names))) for h in n["held"] if not h.get("unindexed")])
         infl = clist(["(%s, %s)" % (cN(names.kid(k)), rtype_term(t, names)) for k, t in n.get("inflight", [])])
         cl = clist([cN(peer_n(p)) for p in n["closest_k"]])
         out.append("(%s, %s, %s, %s)" % (cN(i), items, infl, cl))
@@ -175,9 +179,7 @@ def model_term(c, o):
         else:
             break
     base_state = steps[nconn - 1]["state"] if nconn else o["final"]
-    init = clist(["(mkNode %s [] %s %s [] None None)" % (cN(i), table_term(i, n, pd),
-                                                         clist([cN(peer_n(p)) for p in n["candidates"]]))
-                  for i, n in enumerate(base_state)])
+    init = clist(["(mkNode %s [] %s [] None None)" % (cN(i), table_term(i, n, pd)) for i, n in enumerate(base_state)])
     ops = []
     tab = {}
     for s in steps:
@@ -196,9 +198,11 @@ def model_term(c, o):
         for i, n in enumerate(before):
             if n.get("rt") != prev_state[i].get("rt"):
                 sets.append("(OSetTable %s %s)" % (cN(i), table_term(i, n, pd)))
-            if n["candidates"] != prev_state[i]["candidates"]:
-                sets.append("(OSetCands %s %s)" % (cN(i), clist([cN(peer_n(p)) for p in n["candidates"]])))
         prev_state = before
+        if e.get("op") == "hold_local":
+            # the model does not carry the store's index / cache split: the comparison ends where the case
+            # starts holding back AddLocalRecordAsStored (the oracle judges the rest of the run)
+            break
         if "deliver" in e:
             opt = "(ODeliver %s)" % msg_term(e["deliver"], names)
         elif "drop" in e:
@@ -254,7 +258,7 @@ def merge_expected(old, new):
 KVALUE = 20          # K_VALUE; run() re-reads it from the translator's output (coq/gen/Consts.v, repl_k_value)
 
 
-def read_k_value():
+def read_k_value(name="repl_k_value"):
     import os
     import re
     from vpc import core
@@ -262,7 +266,7 @@ def read_k_value():
         txt = open(os.path.join(core.COQ, "gen", "Consts.v")).read()
     except OSError:
         return None
-    m = re.search(r"Definition repl_k_value : N := (\d+)\.", txt)
+    m = re.search(r"Definition %s : N := (\d+)\." % name, txt)
     return int(m.group(1)) if m else None
 
 
@@ -271,6 +275,22 @@ def norm_type(t):
     if isinstance(t, dict) and "ncb" in t:
         return json.dumps({"nc": ("%02x" % t["ncb"]) * 32}, sort_keys=True)
     return json.dumps(t, sort_keys=True)
+
+
+CGS = 5              # CLOSE_GROUP_SIZE; run() re-reads it (repl_close_group_size)
+
+
+def expected_candidates(j, node_state, pd, rng_):
+    """get_replicate_candidates(self) as the PROPERTY reads it: the routing-table peers within the node's
+    responsible range (distance <= range, the peer exactly on it included) when there are at least
+    CLOSE_GROUP_SIZE of them, else the CLOSE_GROUP_SIZE nearest -- by the harness's own XOR distances and the
+    range the TEST set"""
+    peers = sorted(node_state.get("rt", []), key=lambda p: pd[j].get(p, 1 << 300))
+    if rng_ is not None:
+        inr = [p for p in peers if pd[j].get(p, 1 << 300) <= rng_]
+        if len(inr) >= CGS:
+            return inr
+    return peers[:CGS]
 
 
 def expected_closest(j, node_state, pd):
@@ -293,7 +313,9 @@ def oracle(c, o):
     offered = {}                  # (receiver b, key) -> [was the key within b's synced range when a close holder's list naming it (b not holding it) was handled]
     ck_reported = set()
     prev = None
+    prev_idx = None
     prev_state = None
+    cand_reported = set()
     wanted_from = {}      # (node, key) -> holders a fetch of key was scheduled or queued for
     fetched_from = set()  # (node, key, holder): a fetch that was actually delivered to the holder
     any_drop = False
@@ -313,18 +335,24 @@ def oracle(c, o):
     for si, s in enumerate(steps):
         e = s["eff"]
         st = s["state"]
+        # `held`: what the node's store serves (cache included); `idx`: what its index lists (what add_keys and
+        # the interval list work from) -- they differ only while an AddLocalRecordAsStored is held back
         held = [{json.dumps(h["key"], sort_keys=True): (canon(h["content"], names), json.dumps(h["type"], sort_keys=True)) for h in n["held"]} for n in st]
+        idx = [{json.dumps(h["key"], sort_keys=True) for h in n["held"] if not h.get("unindexed")} for n in st]
         pheld = prev if prev is not None else [dict() for _ in st]
+        pidx = prev_idx if prev_idx is not None else [set() for _ in st]
         sent = [x["sent"] for x in s["log"] if "sent" in x]
         fetch_events = [x for x in s["log"] if "keys_to_fetch" in x]
         if e.get("op") == "replicate":
             i = e["node"]
-            mine = sorted(json.dumps([json.loads(k), json.loads(t)], sort_keys=True) for k, (_, t) in pheld[i].items())
+            mine = sorted(json.dumps([json.loads(k), json.loads(t)], sort_keys=True) for k, (_, t) in pheld[i].items() if k in pidx[i])
             reps = [m for m in sent if m["t"] == "replicate" and m["from"] == i]
             targets = sorted(m["to"] for m in reps)
-            want_targets = sorted(st[i]["candidates"]) if mine else []
+            bsti = prev_state[i] if prev_state is not None else st[i]
+            want_targets = sorted(expected_candidates(i, bsti, pd, store_range[i])) if mine else []
             if targets != want_targets:
-                v.append(("advert-targets", "step %d: node %d sent its list to %s, its replication candidates are %s" % (si, i, targets, want_targets)))
+                v.append(("advert-targets", "step %d: node %d sent its list to %s; the peers of its routing table within its responsible range %s (at least %d of them, else the %d nearest) are %s"
+                          % (si, i, targets, store_range[i], CGS, CGS, want_targets)))
             for m in reps:
                 got = sorted(json.dumps(x, sort_keys=True) for x in m["keys"])
                 if got != mine or m["holder"] != i:
@@ -338,6 +366,13 @@ def oracle(c, o):
                           % (si, j, len(n["closest_k"]), n["closest_k"], KVALUE - 1, len(n.get("rt", [])), want_ck)))
         if e.get("op") == "set_range" and "value" in e:
             store_range[e["node"]] = int(e["value"])
+        # the candidates helper against the independently computed targets
+        for j, n in enumerate(st):
+            want_c = expected_candidates(j, n, pd, store_range[j])
+            if sorted(n["candidates"]) != sorted(want_c) and j not in cand_reported:
+                cand_reported.add(j)
+                v.append(("candidates-wrong", "step %d: get_replicate_candidates of node %d answers %s; the routing-table peers within its responsible range %s (at least %d, else the %d nearest) are %s"
+                          % (si, j, sorted(n["candidates"]), store_range[j], CGS, CGS, sorted(want_c))))
         if "deliver" in e or e.get("op") == "advert":
             m = e.get("deliver") or {"t": "replicate", "to": e["to"], "holder": holder_of_advert(e) if e["holder"] >= 10 or e["holder"] < 0 else e["holder"], "keys": e["keys"]}
             if m["t"] == "replicate" and 0 <= m["to"] < len(st):
@@ -354,7 +389,7 @@ def oracle(c, o):
                 if close:
                     # the responsible range: judged from the ranges the test set and the sync points only
                     r = sync_range[j]
-                    unheld = [(json.dumps(k, sort_keys=True), norm_type(t)) for k, t in m["keys"] if json.dumps(k, sort_keys=True) not in pheld[j]]
+                    unheld = [(json.dumps(k, sort_keys=True), norm_type(t)) for k, t in m["keys"] if json.dumps(k, sort_keys=True) not in pidx[j]]
                     infl_b = {(json.dumps(k, sort_keys=True), json.dumps(t, sort_keys=True)) for k, t in bst.get("inflight", [])}
                     infl_a = {(json.dumps(k, sort_keys=True), json.dumps(t, sort_keys=True)) for k, t in st[j].get("inflight", [])}
                     qd_b = {(json.dumps(q[0], sort_keys=True), json.dumps(q[1], sort_keys=True)) for q in bst.get("queued", [])}
@@ -375,7 +410,7 @@ def oracle(c, o):
                                           % (si, j, k, len(unheld), d, r)))
                 for x in fetch_events:
                     for holder, key in x["keys_to_fetch"]:
-                        if json.dumps(key, sort_keys=True) in pheld[x["node"]]:
+                        if json.dumps(key, sort_keys=True) in pidx[x["node"]]:
                             v.append(("fetched-held", "step %d: node %d schedules a fetch of %s which it already holds" % (si, x["node"], key)))
             if m["t"] == "fetch" and 0 <= m["to"] < len(st):
                 j, h = m["from"], m["to"]
@@ -386,8 +421,10 @@ def oracle(c, o):
                     got = held[j].get(k, (None, None))[0]
                     if got != want:
                         cls = "replica-differs" if k not in pheld[j] else "merge-wrong"
+                        if k in pheld[j] and k not in pidx[j] and pheld[j][k][0][0] == "reg" and served[0][0] == "reg":
+                            cls = "register-overwritten-before-indexed"
                         v.append((cls, "step %d: node %d fetched %s from node %d which serves %s; it now holds %s, expected %s" % (si, j, m["key"], h, served[0], got, want)))
-                    elif k not in pheld[j] and held[j][k][1] != served[1]:
+                    elif k not in pheld[j] and k in idx[j] and held[j][k][1] != served[1]:
                         v.append(("replica-differs", "step %d: node %d stored %s under another record type (%s) than the holder's (%s)" % (si, j, m["key"], held[j][k][1], served[1])))
         if e.get("op") == "seed":
             i = e["node"]
@@ -397,7 +434,12 @@ def oracle(c, o):
                 want = merge_expected(pheld[i][k][0] if k in pheld[i] else None, cc)
                 got = held[i].get(k, (None,))[0]
                 if got != want:
-                    v.append(("merge-wrong", "step %d: node %d was handed %s for %s while holding %s; it now holds %s, expected %s" % (si, i, cc, e["key"], pheld[i].get(k), got, want)))
+                    cls = "merge-wrong"
+                    if k in pheld[i] and k not in pidx[i] and pheld[i][k][0][0] == "reg" and cc[0] == "reg":
+                        # known (HEAD): validate_and_store_register decides "present locally" from the store's index,
+                        # which lags the cache until AddLocalRecordAsStored is handled
+                        cls = "register-overwritten-before-indexed"
+                    v.append((cls, "step %d: node %d was handed %s for %s while holding %s; it now holds %s, expected %s" % (si, i, cc, e["key"], pheld[i].get(k), got, want)))
             elif held[i] != pheld[i]:
                 v.append(("invalid-accepted", "step %d: node %d changed its store on a record presented under a key it does not belong to" % (si, i)))
         # sync points: wherever a node handled LocalSwarmCmd::PutLocalRecord its fetcher takes the store's range
@@ -405,13 +447,14 @@ def oracle(c, o):
             if "put_local" in x and store_range[x["node"]] is not None:
                 sync_range[x["node"]] = store_range[x["node"]]
         prev = held
+        prev_idx = idx
         prev_state = st
     # convergence after full rounds
     if c.get("full_rounds") and not o.get("undelivered"):
         fin = o["final"]
         for a in range(len(fin)):
             for b in range(len(fin)):
-                if a == b or b not in fin[a]["candidates"] or a not in expected_closest(b, fin[b], pd):
+                if a == b or b not in expected_candidates(a, fin[a], pd, store_range[a]) or a not in expected_closest(b, fin[b], pd):
                     continue
                 ha = {json.dumps(h["key"], sort_keys=True): canon(h["content"], names) for h in fin[a]["held"]}
                 hb = {json.dumps(h["key"], sort_keys=True): canon(h["content"], names) for h in fin[b]["held"]}
@@ -702,6 +745,70 @@ def gen_regrow(rng, idx, variant=None):
     return {"kind": variant, "nodes": nodes, "ops": ops, "full_rounds": rounds}
 
 
+def gen_edge(rng, idx):
+    """the ADVERTISER's responsible range sits exactly on / one below / one above the distance of its r-th
+    nearest routing-table peer (r around CLOSE_GROUP_SIZE .. +2, as the density tick sets it: the distance
+    of the (CLOSE_GROUP_SIZE+1)-th closest), with more than CLOSE_GROUP_SIZE + 2 peers in the table: the
+    list must go to every table peer within the range, the one exactly on it included"""
+    nodes = rng.sample(range(1, 60), 2)
+    phantoms = [x for x in rng.sample(range(60, 200), rng.randint(7, 16)) if x not in nodes]
+    ops = [{"op": "connect", "a": 0, "b": 1}, {"op": "connect", "a": 1, "b": 0},
+           {"op": "phantom", "node": 0, "seeds": phantoms}]
+    for j in range(rng.randint(1, 3)):
+        ops.append(seed(0, rec_chunk(idx * 10 + j)))
+    for _ in range(rng.randint(1, 3)):
+        r = rng.choice([CGS - 1, CGS, CGS, CGS + 1, CGS + 1, CGS + 1, CGS + 2, CGS + 3, len(phantoms)])
+        ops.append({"op": "set_range", "node": 0, "range": {"peer_rank": r, "delta": rng.choice([0, 0, 0, -1, 1])}})
+        ops.append({"op": "replicate", "node": 0})
+        ops.append({"op": "run", "picks": [0]})
+    return {"kind": "edge", "nodes": nodes, "ops": ops, "full_rounds": 0}
+
+
+def gen_window(rng, idx):
+    """two versions of one mutable record reach a node that does not hold the key yet, the second while the
+    store's follow-up of the first (AddLocalRecordAsStored, sent after the spawned disk write) has not been
+    handled by the driver: the harness holds that command back. Both orders; the stored version must be the
+    merge of what was accepted (highest counter / union)"""
+    n = rng.choice([2, 3])
+    nodes = rng.sample(range(1, 60), n)
+    ops = connects(n, rng, True)
+    o = rng.randint(1, 30)
+    kind = rng.choice(WINDOW_KINDS)
+    if kind == "pad":
+        c1, c2 = rng.sample(range(0, 9), 2)
+        a, b = rec_pad(o, c1, 1), rec_pad(o, c2, 2)
+    elif kind == "txs":
+        a, b = rec_txs(o, rng.sample(range(1, 6), 2)), rec_txs(o, rng.sample(range(4, 9), 2))
+    else:
+        a, b = rec_reg(o, 1, rng.sample(range(1, 6), 2)), rec_reg(o, 1, rng.sample(range(4, 9), 2))
+    if rng.random() < 0.3:
+        ops.append(seed(1, rec_chunk(idx * 10)))
+    via_fetch = n == 3 and rng.random() < 0.5
+    if via_fetch:
+        # the two versions sit on nodes 0 and 2 and are advertised under different record types, so node 1
+        # runs both fetches concurrently; the case delivers the two answers inside the window
+        ops += [seed(0, a), seed(2, b)]
+        ops.append({"op": "advert", "to": 1, "holder": 0, "keys": [[a["key"], {"ncb": 3}]]})
+        ops.append({"op": "advert", "to": 1, "holder": 2, "keys": [[a["key"], "pad" if kind == "pad" else {"ncb": 4}]]})
+        ops.append({"op": "hold_local", "node": 1})
+        ops.append({"op": "run", "picks": [rng.randrange(0, 2)]})
+    else:
+        ops.append({"op": "hold_local", "node": 1})
+        ops += [seed(1, a), seed(1, b)]
+        if rng.random() < 0.3:
+            ops.append(seed(1, a))
+    ops.append({"op": "release_local", "node": 1})
+    ops.append({"op": "dump"})
+    if rng.random() < 0.5:
+        for x in range(n):
+            ops.append({"op": "replicate", "node": x})
+        ops.append({"op": "run", "picks": [0]})
+    return {"kind": "window-" + kind, "nodes": nodes, "ops": ops, "full_rounds": 0}
+
+
+WINDOW_KINDS = ["pad", "pad", "txs", "reg"]
+
+
 def gen_midflight(rng, idx):
     """the holder's mutable record changes between its advertisement and the fetch being served: the
     fetcher must still treat the fetch as done when the (newer) record is stored"""
@@ -758,10 +865,10 @@ def gen_saturated(rng, idx):
 
 def gen(ctx):
     rng = ctx.rng
-    n = 108 if ctx.tier == "quick" else 2160
+    n = 126 if ctx.tier == "quick" else 2240
     cases = []
     fams = [gen_missing, gen_missing, gen_divergent, gen_adverts, gen_partial, gen_ranged, gen_crowded, gen_midflight,
-            gen_saturated, gen_regrow, gen_regrow, gen_crowded]
+            gen_saturated, gen_regrow, gen_regrow, gen_crowded, gen_edge, gen_window]
     for i in range(n):
         f = fams[i % len(fams)]
         cases.append(f(rng, 100 + i))
@@ -771,6 +878,10 @@ def gen(ctx):
 def run(ctx):
     global KVALUE
     ctx.regen_consts()
+    global CGS
+    g = read_k_value("repl_close_group_size")
+    if g is not None:
+        CGS = g
     k = read_k_value()
     if k is None:
         ctx.tie_break("translator", "repl_k_value", "K_VALUE could not be re-read from the source (coq/gen/Consts.v has no repl_k_value)")
